@@ -179,7 +179,7 @@ func Insertion(g *gen.G, d, b int) (*prover.InsertionParameters, string) {
 }
 
 var DelMutations = []string{"valid", "valid", "valid", "valid", "wrongpost", "corrupt", "wrongitem", "dup-old", "dup-zero", "allpad", "mixpad", "toolarge", "stale",
-	"hash+1", "hash-other-batch", "short-ids", "short-idx", "ragged", "hash+r", "empty-leaf", "pad-genuine"}
+	"hash+1", "hash-other-batch", "short-ids", "short-idx", "ragged", "hash+r", "empty-leaf", "pad-genuine", "deep-proof", "pad-short-proof", "first-short"}
 
 func Deletion(g *gen.G, d, b int) (*prover.DeletionParameters, string) {
 	tree, n := history(g, d)
@@ -253,6 +253,17 @@ func Deletion(g *gen.G, d, b int) (*prover.DeletionParameters, string) {
 	case "ragged":
 		i := g.Intn(b)
 		p.MerkleProofs[i] = p.MerkleProofs[i][:d-1]
+	case "deep-proof":
+		// a later row longer than the first one
+		i := b - 1
+		p.MerkleProofs[i] = append(p.MerkleProofs[i], *big.NewInt(0))
+	case "first-short":
+		p.MerkleProofs[0] = p.MerkleProofs[0][:d-1]
+	case "pad-short-proof":
+		// a padding slot (which ignores its path) with an empty path: still a shape error
+		i := b - 1
+		p.DeletionIndices[i] = uint32(size + uint64(g.Intn(int(size))))
+		p.MerkleProofs[i] = []big.Int{}
 	}
 	p.InputHash = *HashDeletion(p.DeletionIndices, &p.PreRoot, &p.PostRoot)
 	switch mut {
